@@ -249,6 +249,23 @@ func init() {
 			fmt.Fprintf(out, "%s => %s\n", h, sb.String())
 		})
 	}
+	// type-go: one input per line (hex) -> "hex => <number of errors> <position of the first error> <dump of the returned type>"
+	commands["type-go"] = func(args []string) {
+		e := entryByName("ParseType")
+		stdinLines(func(line string) {
+			h := strings.TrimSpace(line)
+			r := callEntry(e, "", unhx(h))
+			if r.panicked {
+				fmt.Fprintf(out, "%s => PANIC %s\n", h, r.panicVal)
+				return
+			}
+			first := -1
+			if errs := allErrors(r.err); len(errs) > 0 && errs[0].Position != nil {
+				first = int(errs[0].Position.Pos)
+			}
+			fmt.Fprintf(out, "%s => %d %d %s\n", h, len(allErrors(r.err)), first, dumpNode(r.nodes[0], posExact, 0))
+		})
+	}
 	commands["expr-go"] = func(args []string) {
 		e := entryByName("ParseExpr")
 		stdinLines(func(line string) {
